@@ -10,29 +10,33 @@ open PyYetiVerif.Extrema
 section inv
 variable {α X Lb : Type} [LT α] [DecidableLT α] [DecidableEq Lb]
 
-/-- what the theorems ask of an event's category: as many rows as labels, no label twice, abscissae
-present or absent as everywhere else (`hx`), and no abscissae in a table without `ext_x` -/
-structure EvOk (hx : Bool) (e : Ev α X Lb) : Prop where
+/-- what the theorems ask of an event's category: as many rows as labels, no label twice, and NaN
+abscissae in a table without `ext_x` (what the harness sends; they are never read by the code) -/
+structure EvOk (e : Ev α X Lb) : Prop where
   len : e.cat.rows.length = e.cat.labels.length
   nodup : e.cat.labels.Nodup
-  hasX : e.cat.hasX = hx
-  nox : hx = false → ∀ m ∈ e.cat.rows, NoX m
+  nox : e.cat.hasX = false → ∀ m ∈ e.cat.rows, NoX m
 
 /-- the new category after the events `e0 :: rest`, read by label -/
-structure Inv (d nc : Nat) (hx : Bool) (e0 : Ev α X Lb) (rest : List (Ev α X Lb))
+structure Inv (d nc : Nat) (e0 : Ev α X Lb) (rest : List (Ev α X Lb))
     (a : Acc α X Lb) : Prop where
   lab : a.labels = labelFold e0.cat.labels (rest.map (·.cat.labels))
   nodup : a.labels.Nodup
   len : a.rows.length = a.labels.length
-  hasX : a.hasX = hx
-  nox : hx = false → ∀ r ∈ a.rows, NoX r.cur
+  /-- `ext_x` is never invented … -/
+  xsrc : a.hasX = true → ∃ e ∈ e0 :: rest, e.cat.hasX = true
+  /-- … and never lost once the first event brought one -/
+  xfirst : e0.cat.hasX = true → a.hasX = true
+  nox : a.hasX = false → ∀ r ∈ a.rows, NoX r.cur
   mem : ∀ l, l ∈ a.labels ↔ ∃ e ∈ e0 :: rest, l ∈ e.cat.labels
   row : ∀ l ∈ a.labels, rowAt a.labels a.rows l = some (specRow d nc l (e0 :: rest))
 
-theorem formStep_init (d nc : Nat) (hx : Bool) (e0 : Ev α X Lb) (h0 : EvOk hx e0) :
-    ∃ a, formStep d nc none e0 = .ok a ∧ Inv d nc hx e0 [] a := by
+theorem formStep_init (d nc : Nat) (e0 : Ev α X Lb) (h0 : EvOk e0) :
+    ∃ a, formStep d nc none e0 = .ok a ∧ Inv d nc e0 [] a := by
   refine ⟨_, rfl, ?_⟩
-  refine ⟨rfl, h0.nodup, by simp [initAcc, h0.len], h0.hasX, ?_, ?_, ?_⟩
+  refine ⟨rfl, h0.nodup, by simp [initAcc, h0.len], ?_, fun h => h, ?_, ?_, ?_⟩
+  · intro h
+    exact ⟨e0, List.mem_cons_self, h⟩
   · intro hf r hr
     simp only [initAcc, List.mem_map] at hr
     obtain ⟨m, hm, rfl⟩ := hr
@@ -47,13 +51,58 @@ theorem formStep_init (d nc : Nat) (hx : Bool) (e0 : Ev α X Lb) (h0 : EvOk hx e
     rw [hr]
     simp only [Option.map_some, Option.some.injEq, recordRow, specRow, rowFold, colFold, evRow, hr,
       List.filterMap_nil, List.foldl_nil, Option.getD_some, List.map_cons, List.map_nil, record,
-      List.foldl_cons, Option.bind_some, relabel, h0.hasX]
-    cases hx
-    · obtain ⟨h1, h2⟩ := h0.nox rfl r (by
+      List.foldl_cons, Option.bind_some, relabel]
+    cases hx : e0.cat.hasX
+    · obtain ⟨h1, h2⟩ := h0.nox hx r (by
         rw [rowAt_of_mem hl] at hr
         exact List.mem_of_getElem? hr)
       simp [h1, h2]
     · simp
+
+/-- a row that is not replaced in either column stays as it is -/
+theorem upd2_of_not_rep (c m : Cur α (Option X) String)
+    (h0 : nanRepl gtB c.hi.v m.hi.v = false) (h1 : nanRepl ltB c.lo.v m.lo.v = false) :
+    upd2 (some c) (m.hi, m.lo) = c := by
+  simp [upd2, Tr.upd, h0, h1]
+
+/-- a table that still has no `ext_x` after a later call carries NaN abscissae -/
+theorem nox_after (j : Nat) (a : Acc α X Lb) (valX : Bool) (ms : List (Cur α (Option X) String))
+    (hna : a.hasX = false → ∀ r ∈ a.rows, NoX r.cur) (hnm : valX = false → ∀ m ∈ ms, NoX m)
+    (hf : hasXAfter a valX ms = false) :
+    ∀ r ∈ List.zipWith (rowSpec j) a.rows ms, NoX r.cur := by
+  intro r hr
+  obtain ⟨p, hp, rfl⟩ := mem_zipWith _ _ _ _ hr
+  unfold hasXAfter at hf
+  simp only [Bool.or_eq_false_iff, Bool.and_eq_false_iff] at hf
+  obtain ⟨⟨hax, h0⟩, h1⟩ := hf
+  have hpa : NoX p.1.cur := hna hax p.1 (List.of_mem_zip hp).1
+  show NoX (upd2 (some p.1.cur) (p.2.hi, p.2.lo))
+  cases hv : valX with
+  | false => exact noX_upd2 _ _ hpa (hnm hv p.2 (List.of_mem_zip hp).2)
+  | true =>
+    have t0 : nanRepl gtB p.1.cur.hi.v p.2.hi.v = false := by
+      rcases h0 with h0 | h0
+      · rw [hv] at h0; cases h0
+      · cases hr0 : nanRepl gtB p.1.cur.hi.v p.2.hi.v with
+        | false => rfl
+        | true => rw [List.any_eq_true.2 ⟨p, hp, hr0⟩] at h0; cases h0
+    have t1 : nanRepl ltB p.1.cur.lo.v p.2.lo.v = false := by
+      rcases h1 with h1 | h1
+      · rw [hv] at h1; cases h1
+      · cases hr1 : nanRepl ltB p.1.cur.lo.v p.2.lo.v with
+        | false => rfl
+        | true => rw [List.any_eq_true.2 ⟨p, hp, hr1⟩] at h1; cases h1
+    rw [upd2_of_not_rep _ _ t0 t1]
+    exact hpa
+
+theorem hasXAfter_true (a : Acc α X Lb) (valX : Bool) (ms : List (Cur α (Option X) String))
+    (h : hasXAfter a valX ms = true) : a.hasX = true ∨ valX = true := by
+  unfold hasXAfter at h
+  cases hax : a.hasX <;> cases hv : valX <;> simp_all
+
+theorem hasXAfter_mono (a : Acc α X Lb) (valX : Bool) (ms : List (Cur α (Option X) String))
+    (h : a.hasX = true) : hasXAfter a valX ms = true := by
+  simp [hasXAfter, h]
 
 /-- the rows of an event aligned with a label list that contains its own, read by label -/
 theorem rowAt_event_rows (d : Nat) (e : Ev α X Lb) (he : e.cat.rows.length = e.cat.labels.length)
@@ -66,7 +115,7 @@ theorem rowAt_event_rows (d : Nat) (e : Ev α X Lb) (he : e.cat.rows.length = e.
   cases rowAt e.cat.labels e.cat.rows l <;> rfl
 
 /-- `extrema` on aligned tables keeps the by-label reading -/
-theorem aligned_step (d nc : Nat) (hx : Bool) (e0 : Ev α X Lb) (rest : List (Ev α X Lb))
+theorem aligned_step (d nc : Nat) (e0 : Ev α X Lb) (rest : List (Ev α X Lb))
     (e : Ev α X Lb) (L : List Lb) (rows : List (ARow α X)) (ms : List (Cur α (Option X) String))
     (hlr : rows.length = L.length) (hlm : ms.length = L.length)
     (hrow : ∀ l ∈ L, rowAt L rows l = some (specRow d nc l (e0 :: rest)))
@@ -76,14 +125,38 @@ theorem aligned_step (d nc : Nat) (hx : Bool) (e0 : Ev α X Lb) (rest : List (Ev
   rw [rowAt_zipWith, hrow l hl, hms l hl, specRow_snoc]
   rfl
 
-theorem formStep_inv (d nc : Nat) (hx : Bool) (e0 : Ev α X Lb) (rest : List (Ev α X Lb))
-    (a : Acc α X Lb) (e : Ev α X Lb) (hinv : Inv d nc hx e0 rest a) (he : EvOk hx e)
-    (hmx : e.cat.hasMx = true) :
-    ∃ a', formStep d nc (some a) e = .ok a' ∧ Inv d nc hx e0 (rest ++ [e]) a' := by
-  have hmem' : ∀ (L : List Lb), (∀ l, l ∈ L ↔ l ∈ a.labels ∨ l ∈ e.cat.labels) →
-      ∀ l, l ∈ L ↔ ∃ e' ∈ e0 :: (rest ++ [e]), l ∈ e'.cat.labels := by
-    intro L hL l
-    rw [hL l, hinv.mem l]
+/-- what is common to the two branches: an aligned accumulator `a1` (rows `L`) and aligned event
+rows `ms`, both read by label -/
+theorem formStep_aligned (d nc : Nat) (e0 : Ev α X Lb) (rest : List (Ev α X Lb)) (a : Acc α X Lb)
+    (e : Ev α X Lb) (hinv : Inv d nc e0 rest a) (he : EvOk e)
+    (a1 : Acc α X Lb) (ms : List (Cur α (Option X) String))
+    (hx1 : a1.hasX = a.hasX)
+    (hlab : a1.labels = labelFold e0.cat.labels ((rest ++ [e]).map (·.cat.labels)))
+    (hnd : a1.labels.Nodup) (hlr : a1.rows.length = a1.labels.length) (hlm : ms.length = a1.labels.length)
+    (hna : a1.hasX = false → ∀ r ∈ a1.rows, NoX r.cur) (hnm : e.cat.hasX = false → ∀ m ∈ ms, NoX m)
+    (hmem : ∀ l, l ∈ a1.labels ↔ l ∈ a.labels ∨ l ∈ e.cat.labels)
+    (hrow : ∀ l ∈ a1.labels, rowAt a1.labels a1.rows l = some (specRow d nc l (e0 :: rest)))
+    (hms : ∀ l ∈ a1.labels, rowAt a1.labels ms l
+      = some ((evRow d l e).getD (relabel e.case e.useExt d fillCur))) :
+    Inv d nc e0 (rest ++ [e]) (extremaTbl e.j a1 e.cat.hasX ms) := by
+  rw [extremaTbl_rowwise e.j a1 e.cat.hasX ms hna hnm]
+  refine ⟨hlab, hnd, ?_, ?_, ?_, ?_, ?_, ?_⟩
+  · simp [List.length_zipWith, hlr, hlm]
+  · intro h
+    rcases hasXAfter_true a1 _ ms h with h | h
+    · obtain ⟨e', he', hx'⟩ := hinv.xsrc (hx1 ▸ h)
+      refine ⟨e', ?_, hx'⟩
+      rcases List.mem_cons.1 he' with rfl | h'
+      · exact List.mem_cons_self
+      · exact List.mem_cons_of_mem _ (List.mem_append_left _ h')
+    · exact ⟨e, List.mem_cons_of_mem _ (List.mem_append_right _ List.mem_cons_self), h⟩
+  · intro h
+    exact hasXAfter_mono a1 _ ms (hx1 ▸ hinv.xfirst h)
+  · intro hf
+    exact nox_after e.j a1 e.cat.hasX ms hna hnm hf
+  · intro l
+    show l ∈ a1.labels ↔ _
+    rw [hmem l, hinv.mem l]
     constructor
     · rintro (⟨e', he', hl⟩ | hl)
       · refine ⟨e', ?_, hl⟩
@@ -98,40 +171,32 @@ theorem formStep_inv (d nc : Nat) (hx : Bool) (e0 : Ev α X Lb) (rest : List (Ev
         · exact Or.inl ⟨e', List.mem_cons_of_mem _ h, hl⟩
         · rw [List.mem_singleton.1 h] at hl
           exact Or.inr hl
+  · intro l hl
+    exact aligned_step d nc e0 rest e a1.labels a1.rows ms hlr hlm hrow hms l hl
+
+theorem formStep_inv (d nc : Nat) (e0 : Ev α X Lb) (rest : List (Ev α X Lb))
+    (a : Acc α X Lb) (e : Ev α X Lb) (hinv : Inv d nc e0 rest a) (he : EvOk e) :
+    ∃ a', formStep d nc (some a) e = .ok a' ∧ Inv d nc e0 (rest ++ [e]) a' := by
   by_cases heq : a.labels = e.cat.labels
   · -- the same rows in the same order: nothing is expanded
     have hstep : formStep d nc (some a) e
         = .ok (extremaTbl e.j a e.cat.hasX (e.cat.rows.map (relabel e.case e.useExt d))) := by
       simp [formStep, checkRows, heq]
-    rw [hstep, he.hasX, extremaTbl_uniform e.j a hx _ hinv.hasX hinv.nox (by
-      intro hf m hm
-      obtain ⟨m', hm', rfl⟩ := List.mem_map.1 hm
-      exact he.nox hf m' hm')]
+    rw [hstep]
     refine ⟨_, rfl, ?_⟩
-    have hlm : (e.cat.rows.map (relabel e.case e.useExt d)).length = a.labels.length := by
-      rw [List.length_map, he.len, heq]
-    refine ⟨?_, hinv.nodup, ?_, hinv.hasX, ?_, ?_, ?_⟩
+    apply formStep_aligned d nc e0 rest a e hinv he a _ rfl
     · simp only [List.map_append, List.map_cons, List.map_nil]
       rw [labelFold_snoc, ← hinv.lab, if_pos heq]
-    · simp [List.length_zipWith, hinv.len, hlm]
-    · intro hf r hr
-      obtain ⟨i, hi⟩ := List.mem_iff_getElem?.1 hr
-      rw [List.getElem?_zipWith] at hi
-      cases hra : a.rows[i]? with
-      | none => simp [hra] at hi
-      | some ra =>
-        cases hrm : (e.cat.rows.map (relabel e.case e.useExt d))[i]? with
-        | none => simp [hra, hrm] at hi
-        | some m =>
-          simp only [hra, hrm, Option.some.injEq] at hi
-          subst hi
-          have hm : m ∈ e.cat.rows.map (relabel e.case e.useExt d) := List.mem_of_getElem? hrm
-          obtain ⟨m', hm', rfl⟩ := List.mem_map.1 hm
-          exact noX_upd2 _ _ (hinv.nox hf ra (List.mem_of_getElem? hra)) (he.nox hf m' hm')
-    · exact hmem' a.labels fun l => by rw [heq]; simp
-    · intro l hl
-      refine aligned_step d nc hx e0 rest e a.labels a.rows _ hinv.len hlm hinv.row ?_ l hl
-      intro l' hl'
+    · exact hinv.nodup
+    · exact hinv.len
+    · rw [List.length_map, he.len, heq]
+    · exact hinv.nox
+    · intro hf m hm
+      obtain ⟨m', hm', rfl⟩ := List.mem_map.1 hm
+      exact he.nox hf m' hm'
+    · intro l; rw [heq]; simp
+    · exact hinv.row
+    · intro l' hl'
       rw [rowAt_map]
       have hl'' : l' ∈ e.cat.labels := heq ▸ hl'
       obtain ⟨r, hr⟩ := rowAt_isSome (rows := e.cat.rows) hl'' he.len
@@ -145,73 +210,50 @@ theorem formStep_inv (d nc : Nat) (hx : Bool) (e0 : Ev α X Lb) (rest : List (Ev
               (mergeLists a.labels e.cat.labels).2.1) e.cat.hasX
             ((expandCat e.cat (mergeLists a.labels e.cat.labels).1
               (mergeLists a.labels e.cat.labels).2.2).rows.map (relabel e.case e.useExt d))) := by
-      simp [formStep, checkRows, heq, (nodupB_iff _).2 hinv.nodup, (nodupB_iff _).2 he.nodup, hmx, expandCat]
-    set L := (mergeLists a.labels e.cat.labels).1 with hL
-    have hxa : ∀ r ∈ (expandAcc nc a L (mergeLists a.labels e.cat.labels).2.1).rows, hx = false → NoX r.cur := by
-      intro r hr hf
+      simp [formStep, checkRows, heq, (nodupB_iff _).2 hinv.nodup, (nodupB_iff _).2 he.nodup, expandCat]
+    rw [hstep]
+    refine ⟨_, rfl, ?_⟩
+    apply formStep_aligned d nc e0 rest a e hinv he (expandAcc nc a (mergeLists a.labels e.cat.labels).1
+      (mergeLists a.labels e.cat.labels).2.1) _ rfl
+    · simp only [List.map_append, List.map_cons, List.map_nil, expandAcc]
+      rw [labelFold_snoc, ← hinv.lab, if_neg heq]
+    · exact hnd
+    · simp [expandAcc, length_expandRows]
+    · simp [expandAcc, expandCat, length_expandRows]
+    · intro hf r hr
       rcases mem_expandRows _ _ _ _ _ hr with rfl | h
       · exact ⟨rfl, rfl⟩
       · exact hinv.nox hf r h
-    have hxm : ∀ m ∈ (expandCat e.cat L (mergeLists a.labels e.cat.labels).2.2).rows.map
-        (relabel e.case e.useExt d), hx = false → NoX m := by
-      intro m hm hf
+    · intro hf m hm
       obtain ⟨m', hm', rfl⟩ := List.mem_map.1 hm
       rcases mem_expandRows _ _ _ _ _ hm' with rfl | h
       · exact ⟨rfl, rfl⟩
       · exact he.nox hf m' h
-    rw [hstep, he.hasX, extremaTbl_uniform e.j _ hx _ (by simpa [expandAcc] using hinv.hasX)
-      (fun hf r hr => hxa r hr hf) (fun hf m hm => hxm m hm hf)]
-    refine ⟨_, rfl, ?_⟩
-    have hlr : (expandAcc nc a L (mergeLists a.labels e.cat.labels).2.1).rows.length = L.length := by
-      simp [expandAcc, length_expandRows]
-    have hlm : ((expandCat e.cat L (mergeLists a.labels e.cat.labels).2.2).rows.map
-        (relabel e.case e.useExt d)).length = L.length := by
-      simp [expandCat, length_expandRows]
-    refine ⟨?_, hnd, ?_, by simpa [expandAcc] using hinv.hasX, ?_, ?_, ?_⟩
-    · simp only [List.map_append, List.map_cons, List.map_nil, expandAcc]
-      rw [labelFold_snoc, ← hinv.lab, if_neg heq]
-    · simp only [expandAcc] at hlr ⊢
-      simp [List.length_zipWith, hlr, hlm]
-    · intro hf r hr
-      obtain ⟨i, hi⟩ := List.mem_iff_getElem?.1 hr
-      simp only [List.getElem?_zipWith] at hi
-      cases hra : (expandAcc nc a L (mergeLists a.labels e.cat.labels).2.1).rows[i]? with
-      | none => simp [hra] at hi
-      | some ra =>
-        cases hrm : ((expandCat e.cat L (mergeLists a.labels e.cat.labels).2.2).rows.map
-            (relabel e.case e.useExt d))[i]? with
-        | none => simp [hra, hrm] at hi
-        | some m =>
-          simp only [hra, hrm, Option.some.injEq] at hi
-          subst hi
-          exact noX_upd2 _ _ (hxa ra (List.mem_of_getElem? hra) hf) (hxm m (List.mem_of_getElem? hrm) hf)
-    · exact hmem' L hmem
-    · intro l hl
-      have hl : l ∈ L := hl
-      refine aligned_step d nc hx e0 rest e L _ _ hlr hlm ?_ ?_ l hl
-      · intro l' hl'
-        simp only [expandAcc, hpv1]
-        rw [rowAt_expandRows (fillARow nc) a.labels L a.rows hinv.nodup (fun x hx' => (hmem x).2 (Or.inl hx'))
-          hinv.len l' hl']
-        by_cases hla : l' ∈ a.labels
-        · rw [hinv.row l' hla]
-          rfl
-        · rw [rowAt_of_notMem hla, Option.getD_none, specRow_of_notCarried]
-          intro e' he' hle'
-          exact hla ((hinv.mem l').2 ⟨e', he', hle'⟩)
-      · intro l' hl'
-        simp only [expandCat, hpv2]
-        exact rowAt_event_rows d e he.len he.nodup L (fun x hx' => (hmem x).2 (Or.inr hx')) l' hl'
+    · exact hmem
+    · intro l' hl'
+      have hl' : l' ∈ (mergeLists a.labels e.cat.labels).1 := hl'
+      simp only [expandAcc, hpv1]
+      rw [rowAt_expandRows (fillARow nc) a.labels _ a.rows hinv.nodup (fun x hx' => (hmem x).2 (Or.inl hx'))
+        hinv.len l' hl']
+      by_cases hla : l' ∈ a.labels
+      · rw [hinv.row l' hla]
+        rfl
+      · rw [rowAt_of_notMem hla, Option.getD_none, specRow_of_notCarried]
+        intro e' he' hle'
+        exact hla ((hinv.mem l').2 ⟨e', he', hle'⟩)
+    · intro l' hl'
+      have hl' : l' ∈ (mergeLists a.labels e.cat.labels).1 := hl'
+      simp only [expandCat, hpv2]
+      exact rowAt_event_rows d e he.len he.nodup _ (fun x hx' => (hmem x).2 (Or.inr hx')) l' hl'
 
 /-- the whole loop keeps the invariant -/
-theorem formCat_inv (d nc : Nat) (hx : Bool) (e0 : Ev α X Lb) : ∀ (es rest : List (Ev α X Lb))
-    (a : Acc α X Lb), Inv d nc hx e0 rest a → (∀ e ∈ es, EvOk hx e ∧ e.cat.hasMx = true) →
-    ∃ a', formCat d nc (some a) es = .ok (some a') ∧ Inv d nc hx e0 (rest ++ es) a'
+theorem formCat_inv (d nc : Nat) (e0 : Ev α X Lb) : ∀ (es rest : List (Ev α X Lb))
+    (a : Acc α X Lb), Inv d nc e0 rest a → (∀ e ∈ es, EvOk e) →
+    ∃ a', formCat d nc (some a) es = .ok (some a') ∧ Inv d nc e0 (rest ++ es) a'
   | [], rest, a, hinv, _ => ⟨a, rfl, by simpa using hinv⟩
   | e :: es, rest, a, hinv, hes => by
-      obtain ⟨a1, h1, hinv1⟩ := formStep_inv d nc hx e0 rest a e hinv (hes e List.mem_cons_self).1
-        (hes e List.mem_cons_self).2
-      obtain ⟨a2, h2, hinv2⟩ := formCat_inv d nc hx e0 es (rest ++ [e]) a1 hinv1
+      obtain ⟨a1, h1, hinv1⟩ := formStep_inv d nc e0 rest a e hinv (hes e List.mem_cons_self)
+      obtain ⟨a2, h2, hinv2⟩ := formCat_inv d nc e0 es (rest ++ [e]) a1 hinv1
         fun e' he' => hes e' (List.mem_cons_of_mem _ he')
       refine ⟨a2, ?_, by simpa using hinv2⟩
       simp only [formCat, h1]
